@@ -3,6 +3,7 @@
 package collector
 
 import (
+	"encoding/pem"
 	"sync/atomic"
 	"sync"
 	"io"
@@ -170,7 +171,19 @@ func vRedactOp(t []string) string {
 		if fault == "badtls" {
 			hc = &http.Client{Timeout: 150 * time.Millisecond} // does not trust the test certificate
 		}
-		c := &clientImpl{httpClient: hc}
+		var c Client = &clientImpl{httpClient: hc}
+		if vKVc(t, "via", "") == "newclient" && fault != "badtls" {
+			// the client as the worker builds it (NewClient: transport, redirect policy, limiter), trusting the test server's
+			// certificate through a CA file
+			if dir, err := os.MkdirTemp(os.Getenv("VERIF_SCRATCH_DIR"), "verif-ca"); err == nil {
+				defer os.RemoveAll(dir)
+				pemPath := dir + "/ca.pem"
+				os.WriteFile(pemPath, pem.EncodeToMemory(&pem.Block{Type: "CERTIFICATE", Bytes: srv.Certificate().Raw}), 0600)
+				if nc, err := NewClient(&ClientConfig{CAFile: pemPath, MaxParallel: 2, Timeout: 500 * time.Millisecond}); err == nil {
+					c = nc
+				}
+			}
+		}
 		o1, o2 := vSize(vLogPath), vSize(vAuditPath)
 		cmd := &RpmCmd{Name: cmdName, Collector: host, License: LicenseKey(key), RunID: "r1", MaxPayloadSize: 1000000}
 		cs := RpmControls{AgentLanguage: "php", AgentVersion: "1", Collectible: CollectibleFunc(func(audit bool) ([]byte, error) { return []byte(`[1]`), nil })}
